@@ -31,7 +31,7 @@ POOL = [
 ]
 
 # reduced pool for quick tiers: one or two representatives per kind plus the classic faults
-QUICK = ["zero", "one", "neg1", "two", "fzero", "rint", "i63", "ni63", "ni63s", "i64", "i32m", "isq63", "bigzero", "dfn", "half", "f15", "nan", "inf", "cplx", "sempty", "su", "lempty", "l123", "lnest", "lmixed",
+QUICK = ["zero", "one", "neg1", "two", "fzero", "rint", "i63", "ni63", "ni63s", "i64", "i32m", "isq63", "bigzero", "dfn", "half", "f15", "nan", "inf", "cplx", "sempty", "sa", "su", "lempty", "l123", "lnest", "lmixed",
          "dempty", "ddef", "vempty", "v12", "bempty", "bff", "rng", "rempty", "null", "finc", "fthrow", "tint"]
 
 # builtins for which a huge integer argument requests a huge amount of memory/time (resource, not semantics)
